@@ -51,7 +51,8 @@ pub fn range_class(p: &RtcpPacket) -> Option<&'static str> {
         RtcpPacket::RemoteBitrateEstimate(r) => {
             if r.ssrcs.len() > 255 { Some("ssrcs>255") } else if !remb_representable(r.bitrate_bps) { Some("bitrate-not-representable") } else { None } }
         RtcpPacket::TransportWideCc(t) => {
-            if t.reference_time_64ms >= 1 << 24 { Some("reftime>24bit") } else if t.payload.len() % 4 != 0 { Some("payload-unaligned") } else { None } }
+            // (the opaque status/delta payload may have any length: the packet is aligned with RTCP padding)
+            if t.reference_time_64ms >= 1 << 24 { Some("reftime>24bit") } else { None } }
     }
 }
 
@@ -576,6 +577,18 @@ pub fn run(args: &Args) {
             let rp: Option<Vec<_>> = ps.iter().map(refc::to_ref).collect();
             if let Some(rb) = rp.and_then(refc::ref_marshal_rtcp) { emit(&mut run, format!("rtcp_parse_ref {}", hex(&rb)), true); run.count("rtcp_from_reference"); }
         }
+    }
+    // TWCC feedback as browsers / the reference send it: payload of any length, aligned by RTCP padding
+    for _ in 0..300 * scale {
+        let n = rng.below(14) as usize;
+        let mut body = vec![]; body.extend(gens::g32(&mut rng).to_be_bytes()); body.extend(gens::g32(&mut rng).to_be_bytes());
+        body.extend(gens::g16(&mut rng).to_be_bytes()); body.extend(gens::g16(&mut rng).to_be_bytes());
+        body.extend(rng.bytes(4)); body.extend(rng.bytes(n));
+        let pad = (4 - body.len() % 4) % 4;
+        let mut v = vec![0x80 | 15 | if pad != 0 { 0x20 } else { 0 }, 205, 0, 0];
+        if pad != 0 { for _ in 1..pad { body.push(0); } body.push(pad as u8); }
+        let words = body.len() / 4; v[2] = (words >> 8) as u8; v[3] = words as u8; v.extend(body);
+        emit(&mut run, format!("rtcp_parse {}", hex(&v)), true); run.count("rtcp_twcc_padded_wire");
     }
     // boundary NACK sets: every subset of a window straddling 65535 → 0
     let w: u32 = if args.tier_thorough { 16 } else { 11 };
